@@ -67,6 +67,15 @@ def px(e, defs=None, depth=0):
             op, r = "/", "8"
         if op == "&" and r in ("7", "0x7") and k == "bin":
             op, r = "%", "8"
+        if k == "asg" and op == "=":
+            # `x = x op y` (possibly through a cast back to x's type) is the compound assignment `x op= y`; also `y op x` for commutative ops
+            rr = strip(e["rhs"])
+            if isinstance(rr, dict) and rr.get("k") == "bin" and rr.get("op") in ("|", "&", "^", "+", "-", "<<", ">>"):
+                a, b2 = px(rr["lhs"], defs, depth + 1), px(rr["rhs"], defs, depth + 1)
+                if a == l:
+                    return l + rr["op"] + "=" + b2
+                if b2 == l and rr["op"] in ("|", "&", "^", "+"):
+                    return l + rr["op"] + "=" + a
         s = l + op + r
         return "(" + s + ")" if k == "bin" else s
     if k == "un":
@@ -315,8 +324,35 @@ def check_stream(ctx, F):
                         if v.get("init") is not None:
                             inner_defs[v["n"]] = v["init"]
             atoms = {n: px(e, {k: v for k, v in inner_defs.items() if k != n}) for n, e in inner_defs.items()}
-            upd = sorted(px(x, {}) for x in walk(loop[0]["b"]) if x.get("k") == "asg")
-            full = sorted(px(x, inner_defs) for x in walk(loop[0]["b"]) if x.get("k") == "asg")
+            # the updates of one iteration, in execution order (body, then the loop's step expression), as a set of
+            # (target := value over the iteration's start values); an update that reads a variable already updated in this iteration,
+            # or a chunk atom defined after an update, is marked so: such an order matters, any other order does not
+            stmts = [x for x in walk(loop[0]["b"]) if x.get("k") in ("asg", "decl")]
+            if isinstance(loop[0].get("inc"), dict):
+                stmts += [x for x in walk(loop[0]["inc"]) if x.get("k") == "asg"]
+            updated = []
+            full = []
+            upd = []
+            for x in stmts:
+                if x.get("k") == "decl":
+                    for v in x["vars"]:
+                        used = set(re.findall(r"[A-Za-z_]\w*", px(v.get("init") or {}, {})))
+                        if used & set(updated):
+                            full.append("%s defined after the update of %s" % (v["n"], sorted(used & set(updated))))
+                    continue
+                raw = px(x, {})
+                upd.append(raw)
+                target = re.match(r"^\(?([A-Za-z_]\w*)", raw)
+                rhs_used = set(re.findall(r"[A-Za-z_]\w*", px(x.get("rhs") or {}, {})))
+                t = px(x, inner_defs)
+                dirty = sorted(v for v in rhs_used if v in updated and not (target and v == target.group(1)))
+                if dirty:
+                    t += " @after-update-of(%s)" % ",".join(dirty)
+                full.append(t)
+                if target:
+                    updated.append(target.group(1))
+            upd = sorted(upd)
+            full = sorted(full)
             cond = px(loop[0].get("c") or {}, {})
             bad = []
             for a, w in COMMON_ATOMS.items():
